@@ -310,4 +310,85 @@ theorem constStep_rel (opts : Opts) (ho : opts.optStatic = true) (d : Decls) (no
                       exact m.write r hslot _ _ rfl (m.kn r) (m.ne r) (by intro h; simp_all) (by intro h; simp_all) (by intro h; simp_all))
     | _ => exact ⟨y, rfl, m, fx, sx⟩
 
+theorem consts_rel (opts : Opts) (ho : opts.optStatic = true) (d : Decls) (nodes : List AstNode) :
+    ∀ (l : List AstNode), (∀ n ∈ l, n ∈ nodes) → ∀ (a b : Except String (Defs × Nat)), AccRel opts d nodes a b →
+      AccRel opts d nodes (l.foldl (constStep opts d) a) (l.foldl (constStep opts.staticOff d) b) := by
+  intro l
+  induction l with
+  | nil => intro _ a b h; exact h
+  | cons n rest ih =>
+    intro hsub a b h
+    rw [List.foldl_cons, List.foldl_cons]
+    exact ih (fun m hm => hsub m (List.mem_cons_of_mem _ hm)) _ _
+      (constStep_rel opts ho d nodes n (hsub n List.mem_cons_self) a b h)
+
+/-! ## the passes that read values only -/
+
+theorem evalCertain_rel {opts : Opts} {d : Decls} {on off : Defs} (m : MRel opts d on off) (e : Expr) :
+    evalCertain d off e = evalCertain d on e := by
+  unfold evalCertain
+  simp only [m.slotval]
+
+theorem checkLeftoverIfs_rel {opts : Opts} {d : Decls} {on off : Defs} (m : MRel opts d on off) (nodes : List AstNode) :
+    checkLeftoverIfs d off nodes = checkLeftoverIfs d on nodes := by
+  unfold checkLeftoverIfs
+  simp only [evalCertain_rel m]
+
+theorem defineBank_rel {opts : Opts} {d : Decls} {on off : Defs} (m : MRel opts d on off) (b : BankdefAst) :
+    defineBank d off b = defineBank d on b := by
+  unfold defineBank
+  simp only [evalCertain_rel m]
+
+/-! ## the declaration loop, side by side -/
+
+theorem declLoop_rel (opts : Opts) (ho : opts.optStatic = true) :
+    ∀ (fuel : Nat) (d : Decls) (on off : Defs) (nodes : List AstNode) (prev : Nat), MRel opts d on off → FInv opts d on nodes →
+      match declLoop opts fuel d on nodes prev with
+      | .error e => declLoop opts.staticOff fuel d off nodes prev = .error e
+      | .ok (d', on', nodes') => ∃ off', declLoop opts.staticOff fuel d off nodes prev = .ok (d', off', nodes') ∧ MRel opts d' on' off' := by
+  intro fuel
+  induction fuel with
+  | zero => intro d on off nodes prev _ _; simp only [declLoop]
+  | succ f ih =>
+    intro d on off nodes prev m fi
+    simp only [declLoop]
+    cases hc : collectAll d nodes with
+    | error e => rfl
+    | ok x =>
+      obtain ⟨d1, n1⟩ := x
+      simp only
+      have f1 := fi.collect hc
+      obtain ⟨hne, _, _⟩ := collectAll_ext d d1 nodes n1 fi.kinv fi.fn hc
+      have hke := collectAll_kindExt d d1 nodes n1 fi.kinv hc
+      have m1 : MRel opts d1 on off := m.ext hne hke fi.s0
+      obtain ⟨f2, s2, _⟩ := FInv.define (opts := opts) (d := d1) (nodes := n1) n1 on (fun _ hn => hn) f1
+      have m2 := MRel.define (opts := opts) (d := d1) n1 on off m1
+      have acc := consts_rel opts ho d1 n1 n1 (fun _ hn => hn) (.ok (defineSymbols on n1, 0)) (.ok (defineSymbols off n1, 0))
+        ⟨_, rfl, m2, f2, fun n hn r hr => s2 n hn r hr⟩
+      rw [← resolveConstantsSimple_eq, ← resolveConstantsSimple_eq] at acc
+      cases hr : resolveConstantsSimple opts d1 (defineSymbols on n1) n1 with
+      | error e =>
+        rw [hr] at acc
+        simp only [AccRel] at acc
+        rw [acc]
+      | ok y =>
+        obtain ⟨x2, cnt⟩ := y
+        rw [hr] at acc
+        obtain ⟨y2, e2, m3, f3, s3⟩ := acc
+        rw [e2]
+        simp only
+        rw [resolveIfs_rel m3]
+        cases hri : resolveIfs d1 x2 n1 with
+        | error e => rfl
+        | ok z =>
+          obtain ⟨nodes2, ifs⟩ := z
+          simp only
+          by_cases hcond : (cnt == prev && ifs == 0) = true
+          · simp only [hcond, if_true]
+            exact ⟨y2, rfl, m3⟩
+          · simp only [hcond, if_false]
+            have hsub := resolveIfs_refSub d1 x2 n1 nodes2 ifs hri
+            have hk2 := resolveIfs_kinv d1.symbols _ _ _ _ _ f3.kinv hri
+            exact ih d1 x2 y2 nodes2 cnt m3 (f3.sub hk2 hsub)
+
 end Casm
